@@ -175,6 +175,7 @@ SPEC = {
         "tame_class_is_part_of_class_with_paste",
         "object_like_refines_spec",
         "trailing_function_name_is_invoked", "paste_is_single_token", "paste_matches_lexer",
+        "paste_joins_source_spellings",
         "parse_yields_wellformed_macro", "directive_takes_effect_from_its_line",
         "api_defines_equal_file_defines_tokens", "include_of_empty_file",
         "include_is_paste", "pragma_once_once",
